@@ -208,7 +208,8 @@ func (db *PreparedStmtDB) QueryRowContext(ctx context.Context, query string, arg
 	if err == nil {
 		return stmt.QueryRowContext(ctx, args...)
 	}
-	return &sql.Row{}
+	// an empty sql.Row panics when it is scanned: let the pool itself report why the statement can't run
+	return db.ConnPool.QueryRowContext(ctx, query, args...)
 }
 
 func (db *PreparedStmtDB) Ping() error {
@@ -277,7 +278,8 @@ func (tx *PreparedStmtTX) QueryRowContext(ctx context.Context, query string, arg
 	if err == nil {
 		return tx.Tx.StmtContext(ctx, stmt.Stmt).QueryRowContext(ctx, args...)
 	}
-	return &sql.Row{}
+	// an empty sql.Row panics when it is scanned: let the transaction itself report why the statement can't run
+	return tx.Tx.QueryRowContext(ctx, query, args...)
 }
 
 func (tx *PreparedStmtTX) Ping() error {
